@@ -56,7 +56,6 @@ const OID_ECDSA_SHA256: &[u8] = &[0x06, 0x08, 0x2A, 0x86, 0x48, 0xCE, 0x3D, 0x04
 const OID_ECDSA_SHA384: &[u8] = &[0x06, 0x08, 0x2A, 0x86, 0x48, 0xCE, 0x3D, 0x04, 0x03, 0x03];
 const OID_ED25519: &[u8] = &[0x06, 0x03, 0x2B, 0x65, 0x70];
 const OID_RSA: &[u8] = &[0x06, 0x09, 0x2A, 0x86, 0x48, 0x86, 0xF7, 0x0D, 0x01, 0x01, 0x01];
-const OID_RSA_SHA1: &[u8] = &[0x06, 0x09, 0x2A, 0x86, 0x48, 0x86, 0xF7, 0x0D, 0x01, 0x01, 0x05];
 const OID_RSA_SHA256: &[u8] = &[0x06, 0x09, 0x2A, 0x86, 0x48, 0x86, 0xF7, 0x0D, 0x01, 0x01, 0x0B];
 const OID_RSA_SHA384: &[u8] = &[0x06, 0x09, 0x2A, 0x86, 0x48, 0x86, 0xF7, 0x0D, 0x01, 0x01, 0x0C];
 const OID_RSA_SHA512: &[u8] = &[0x06, 0x09, 0x2A, 0x86, 0x48, 0x86, 0xF7, 0x0D, 0x01, 0x01, 0x0D];
@@ -684,13 +683,13 @@ pub fn run(args: &Args) -> i32 {
         let host = if kind == RSA { rsa_key((i / 4) as usize) } else { gen_key(kind, rng) };
         // quick: 4 values at every position for the first certificate of each host key type, strided for the rest
         let stride = if tiny { 23 } else { 1 };
-        mutate_generated(&check, kind, &host, rng, thorough && i < 8, stride);
+        mutate_generated(&check, kind, &host, rng, thorough, stride);
     });
     check.note("phase_s_mutation", json!(check.elapsed()));
     // (c)
     let reps = budget(args, 1, 30, 300);
     let n_v = VARIANTS.len() as u64 * reps;
     vmon::par_cases(&check, n_v, args.threads, |i, rng| variant_case(&check, rng, (i as usize) % VARIANTS.len(), i % 5 == 0));
-    check.note("exhaustive", json!("byte positions of generated certificates: all (quick: 4 values each, thorough: 255 for 8 certificates)"));
+    check.note("exhaustive", json!("byte positions of generated certificates: all (quick: 4 values each, thorough: all 255 values)"));
     check.finish()
 }
